@@ -87,3 +87,14 @@ package podeni
 //@ # the cloud is asked to detach / delete only an interface that no PodENI record references
 //@ guard call DetachNetworkInterface in gcENIs: forall j int, a int :: 0 <= j && j < len(podENIs.Items) && 0 <= a && a < len(podENIs.Items[j].Spec.Allocations) ==> podENIs.Items[j].Spec.Allocations[a].ENI.ID != arg1
 //@ guard call DeleteNetworkInterface in gcENIs: forall j int, a int :: 0 <= j && j < len(podENIs.Items) && 0 <= a && a < len(podENIs.Items[j].Spec.Allocations) ==> podENIs.Items[j].Spec.Allocations[a].ENI.ID != arg1
+
+//@ for C10
+//@ # ---- a record is released (finalizer removed by the caller on a nil result) only if every interface of it was deleted ----
+//@ ghost c10delerr bool = false
+//@ func ReconcilePodENI.deleteMemberENI
+//@   requires m != nil && m.aliyun != nil && m.record != nil && podENI != nil
+//@   at call DeleteNetworkInterface: ghost c10delerr = (c10delerr || result != nil)
+//@   loop 1 invariant !c10delerr
+//@   # any failed delete makes the whole step fail, so the record stays and the delete is retried
+//@   ensures c10delerr ==> result != nil
+//@ # detach has the same shape: the record moves to Unbind only if every interface was detached (see guard above)
